@@ -375,6 +375,49 @@ pub fn replay(a: &Args) -> i32 {
                 }
             }
         }
+        // many visitors: 160 different identities connect to the listener one after the other and leave;
+        // then early ones come back - each is listed under its own key, every time, however many others
+        // the process has seen in between
+        {
+            let visitor = |i: u32| -> [u8; 32] {
+                let mut k = [0x33u8; 32];
+                k[..4].copy_from_slice(&i.to_le_bytes());
+                k[31] = 0x77;
+                k
+            };
+            let order: Vec<u32> = (0..160).chain([0, 1, 2, 80, 159, 0]).collect();
+            for (n, i) in order.into_iter().enumerate() {
+                *n_hs2.lock().unwrap() += 1;
+                let seed = visitor(i);
+                let id = sim::peer_id_of(&seed);
+                sim.run.register_node(id, 1000 + i as i64);
+                let der = adv::mint(&CertSpec::plain(seed, None, vec![cn("n1")])).der;
+                let (ep, _) = adv::endpoint(&sim.run.fabric, None).map_err(|e| e.to_string())?;
+                let cc = adv::client_config(Some((vec![der], adv::ed_key_der(&seed))), None);
+                let connecting = ep.connect_with(cc, sim.addr(l1), &cn("n1")).map_err(|e| e.to_string())?;
+                let held = tokio::time::timeout(std::time::Duration::from_secs(5), async {
+                    let conn = connecting.await?;
+                    adv::dialer_wait_ack(&conn).await?;
+                    Ok::<_, anyhow::Error>(conn)
+                })
+                .await;
+                sim.sleep_ms(10).await;
+                let listed = sim.net(l1).peers();
+                let row = json!({"visitor": i, "visit": n});
+                if !matches!(held, Ok(Ok(_))) {
+                    bad(format!("visitor {i} (visit {n}) with a plain honest certificate was not admitted"), &row);
+                } else if listed != vec![id] {
+                    bad(format!("visitor {i} (visit {n}): the listener lists {:?}, not exactly the visitor's key", listed.iter().map(|p| sim.run.node_of(p)).collect::<Vec<_>>()), &row);
+                }
+                drop(held);
+                ep.close(0u32.into(), b"");
+                sim.sleep_ms(30).await;
+                for p in sim.net(l1).peers() {
+                    sim.disconnect(l1, p);
+                }
+                sim.sleep_ms(10).await;
+            }
+        }
         // no client certificate at all
         {
             let (ep, _) = adv::endpoint(&sim.run.fabric, None).map_err(|e| e.to_string())?;
